@@ -31,10 +31,13 @@ def wholeOps (op : String) (a : List String) : Option String :=
   | "whole.rt", _ => some "ok"
   | "whole.parse", [x] =>
       let ls := splitLines (argHex x)
-      some (match readTop (ls.length + 1) ls with
+      some (if textRisky ls then "skip" else match readTop (ls.length + 1) ls with
         | none => "error"
         | some t =>
-          if t.funcs.any risky then "skip" else
+          let ge := match (mergeTypedefs [] t.lines).bind Core2.translateTok with
+            | some c2 => genvOf c2.globals t.funcs
+            | none => []
+          if t.funcs.any (riskyIn ge) then "skip" else
           match Whole.translate t with
           | none => "error"
           | some m => "ok " ++ outHex (wholeText m))
